@@ -1,6 +1,6 @@
 (* C12 - IDL comments only ever become documentation; they cannot alter generated code. *)
 From Coq Require Import List String Ascii Bool Arith.
-From PDV Require Import Lib.StrUtil Lang.Comment Lang.CommentProofs.
+From PDV Require Import Lib.StrUtil Lang.Comment Lang.CommentProofs Lang.Lexical.
 Import ListNotations.
 Open Scope string_scope. Open Scope list_scope.
 
@@ -29,6 +29,43 @@ Print Assumptions C12_escape_is_per_character.
 Theorem C12_neutralized_text_has_no_terminator : forall s, has_term (neutralize s) = false.
 Proof. exact neutralize_no_term. Qed.
 Print Assumptions C12_neutralized_text_has_no_terminator.
+
+(* ---- translation phases that run before comments are recognised ---- *)
+(* Java: javac translates unicode escapes first (JLS 3.3, Lexical.jtrans).  The Javadoc comment as written by the Java generator
+   (rendered text through jneut = text.replace("\u", "&#92;u") in java/type.py, then the comment filter) contains no backslash-u pair:
+   javac reads exactly the text that was written, and that text is closed once, at its end - whatever the comment contains. *)
+Theorem C12_java_comment_closed_after_unicode_translation : forall rendered,
+  jtrans (java_doc rendered) = Some (java_doc rendered) /\
+  exists body, java_doc rendered = (body ++ "*/")%string /\ has_term body = false /\ ends_star body = false.
+Proof. exact java_doc_closed. Qed.
+Print Assumptions C12_java_comment_closed_after_unicode_translation.
+
+(* without that repair the statement is false (the defect that was repaired in /repo): \u002a/ closes the comment, C:\users does not compile *)
+Theorem C12_java_unrepaired_refuted :
+  (exists t, jtrans (comment_filter (Some BLOCK_START) (Some BLOCK_END) BLOCK_PREFIX "x \u002a/ int evil; /\u002a") = Some t /\
+             t = ("/**" ++ String nl " * x */ int evil; /*" ++ String nl " */")%string) /\
+  jtrans (comment_filter (Some BLOCK_START) (Some BLOCK_END) BLOCK_PREFIX "see C:\users\me") = None.
+Proof. exact java_doc_unrepaired_refuted. Qed.
+Print Assumptions C12_java_unrepaired_refuted.
+
+(* C family: a '//' line that ends in a backslash (blanks may follow) is spliced with the next line before comments are recognised.
+   With the repair in Generator.comment_filter (Lexical.fix_line) no physical line of the generated line comment dangles, and every
+   line carries the prefix: the declaration that follows the comment is never swallowed. *)
+Theorem C12_line_comment_never_splices : forall prefix content, has_char bslash prefix = false ->
+  line_doc prefix content = join (String nl "") (line_doc_lines prefix content) /\
+  Forall (fun l => dangling l = false /\ exists r, l = (prefix ++ r)%string) (line_doc_lines prefix content).
+Proof. exact line_doc_safe. Qed.
+Print Assumptions C12_line_comment_never_splices.
+
+Theorem C12_line_comment_unrepaired_refuted :
+  exists l, In l (split_on nl (comment_filter None None "/// " "path C:\")) /\ dangling l = true.
+Proof. exact line_doc_unrepaired_refuted. Qed.
+Print Assumptions C12_line_comment_unrepaired_refuted.
+
+(* the repair changes nothing for lines that do not end in a backslash *)
+Theorem C12_fix_line_identity : forall s, dangling s = false -> fix_line s = s.
+Proof. exact fix_line_id. Qed.
+Print Assumptions C12_fix_line_identity.
 
 Example C12_example :
   comment_filter (Some "/**") (Some " */") " * " "evil */ int x; /*" =
